@@ -345,6 +345,9 @@ func (m *Model) Apply(op Op, now int64) Outcome {
 		if !validPair(c.Metric, c.Prec) {
 			return Outcome{Reject: true, Why: "unsupported metric/precision"}
 		}
+		if op.T == 1 {
+			return Outcome{Reject: true, Why: "maintenance config that cannot be journaled"}
+		}
 		if c.M <= 0 {
 			c.M = 16
 		}
